@@ -25,8 +25,8 @@ ID = "C14"
 LEAN_MODULES = ["MpfVerif.Props.C14"]
 PROPS_FILE = "MpfVerif/Props/C14.lean"
 MANIFEST = {
-  "text": "Proof on byte-level Lean models of the three incremental serial decoders and the FAST command writer: (1) for every byte-at-a-time decoder feed(a++b) = feed(feed a) b, hence frames and carried buffer of the FAST ('\\r') and PKONE ('E') decoders are independent of how the bytes were split into reads, and after any noise one delimiter restores exact in-order delivery; (2) a transcription of OPP's _parse_msg (part_msg, _lost_synch, the strlen>2 threshold, 7/11-byte frames, EOM) always terminates and, on every chunking, emits exactly the frames of a byte-at-a-time automaton on the concatenated bytes, its carried state being equal after normalisation (the raw carried pair does depend on the chunking); (3) the CRC-8 table regenerated from opp_rs232_intf.py on every run is a permutation (kernel-checked per entry) and therefore every single-byte error in data or CRC byte of a frame is detected; a frame with a wrong CRC changes no card state and produces no switch event; after any frame the reported switch states mirror old_state and a valid frame sets it to its payload; a FAST switch report sets exactly that switch; (4) after any garbage plus 11 idle bytes the OPP automaton decodes every following well-formed frame; (5) the writer keeps queue order at every point of every run. Flow control is a known finding (the writer never pauses; a lost response is never retried): proved only for disciplined senders resp. for responses that arrive, with witnesses. The models are tied to the real communicators by a correspondence run (generated streams, chunkings down to single bytes, corruptions, malformed frames, writer schedules) on every check.",
-  "note": "Trusted: Lean kernel + {propext, Classical.choice, Quot.sound}; the hand-written models in Model/Framing.lean (validated only by differential runs); the generator that extracts CRC8_LOOKUP; asyncio Queue/Event semantics for the writer. Known findings: the FAST writer does not pause for confirmations and never retries a lost response (D7); a frame that is not UTF-8 makes the FAST and the PKONE reader raise. Not modelled: config-phase FAST responses (ID/NN/DL/SL/CH), update_switches_from_hw_data over configured switches, PKONE payload parsing and its in-flight counter, ignore_decode_errors=True (connect phase).",
+  "text": "Proof on byte-level Lean models of the three incremental serial decoders and the FAST command writer: (1) for every byte-at-a-time decoder feed(a++b) = feed(feed a) b, hence frames and carried buffer of the FAST ('\\r') and PKONE ('E') decoders are independent of how the bytes were split into reads, and after any noise one delimiter restores exact in-order delivery; (2) a transcription of OPP's _parse_msg (part_msg, _lost_synch, the strlen>2 threshold, 7/11-byte frames, EOM) always terminates and, on every chunking, emits exactly the frames of a byte-at-a-time automaton on the concatenated bytes, its carried state being equal after normalisation (the raw carried pair does depend on the chunking); (3) the CRC-8 table regenerated from opp_rs232_intf.py on every run is a permutation (kernel-checked per entry) and therefore every single-byte error in data or CRC byte of a frame is detected; a frame with a wrong CRC changes no card state and produces no switch event; after any frame the reported switch states mirror old_state and a valid frame sets it to its payload; a FAST switch report sets exactly that switch, and after any list of SA: snapshots and -L:/ /L: events the state of every configured switch is what the last report mentioning it said (event: the reported logical state; snapshot: invert xor bit) while hw_switch_data is the last snapshot; (4) after any garbage plus 11 idle bytes the OPP automaton decodes every following well-formed frame; (5) the writer keeps queue order at every point of every run. Flow control is a known finding (the writer never pauses; a lost response is never retried): proved only for disciplined senders resp. for responses that arrive, with witnesses. The models are tied to the real communicators by a correspondence run (incl. the real FAST platform booted on the repo's mock serial with the real switch controller for mixed snapshot/event sequences; generated streams, chunkings down to single bytes, corruptions, malformed frames, writer schedules) on every check.",
+  "note": "Trusted: Lean kernel + {propext, Classical.choice, Quot.sound}; the hand-written models in Model/Framing.lean (validated only by differential runs); the generator that extracts CRC8_LOOKUP; asyncio Queue/Event semantics for the writer. Known findings: the FAST writer does not pause for confirmations and never retries a lost response (D7); a frame that is not UTF-8 makes the FAST and the PKONE reader raise. Not modelled: config-phase FAST responses (ID/NN/DL/SL/CH), SA: snapshots shorter than the highest configured switch number (KeyError after a partial update), PKONE payload parsing and its in-flight counter, ignore_decode_errors=True (connect phase).",
   "technique": "Lean 4 theorems (induction over byte lists, simulation between loop transcription and automaton, decide +kernel over the regenerated CRC table) + differential correspondence with the real parsers and writer task",
   "translated": True,
  }
@@ -36,7 +36,7 @@ RULE = ("cases: (a) FAST streams of 3-12 frames (-L:/ /L: switch reports, SA: re
         "(delimiter E); (c) OPP polls (input frames 7 bytes, matrix frames 11 bytes, EOM) for 1-3 cards incl. unknown "
         "cards, with payload/CRC corruptions, header corruptions, garbage runs, truncations, and a resync stream "
         "(garbage + 11 EOM + valid frames); (d) writer schedules over send_with_confirmation/send_and_forget/run/"
-        "confirmation-received, both free and disciplined; (e) send_and_wait_for_response_processed under time-outs/responses on a virtual clock. non-trivial = more than one chunk and (a corruption, a "
+        "confirmation-received, both free and disciplined; (d2) on the REAL FAST platform booted on the repo's mock serial (TestFastNeuron scaffolding, real switch controller): sequences of 4-14 valid frames mixing SA: snapshots (random, identical to an earlier one, or an earlier one with configured switches flipped so that it contradicts the events in between), -L:/ /L: events on NO and NC switches (15% dropped before delivery), malformed and ignored frames, under whole / single-byte / random chunkings; (e) send_and_wait_for_response_processed under time-outs/responses on a virtual clock. non-trivial = more than one chunk and (a corruption, a "
         "malformed frame, lost synch, or >= 2 frames); distinct = canonical JSON of (kind, stream, chunking)")
 TRUSTED = [
     "Model/Framing.lean is hand-written; tied to mpf/platforms/fast/communicators/{base,net_neuron}.py, "
@@ -50,7 +50,10 @@ ASSUMPTIONS = [
     "FAST/PKONE corruption bytes never form valid multi-byte UTF-8, whitespace, sign, underscore or 0x prefixes "
     "(Python's int()/fromhex accept those; the model's hex parser is strict)",
     "FAST: only the run-time report set is generated (-L:, /L:, SA:, WD:P, TL:P, unknown headers); config-phase "
-    "responses are outside the model; SA: reports are observed at platform.hw_switch_data (no configured switches)",
+    "responses are outside the model; in the stand-alone stream SA: reports are observed at platform.hw_switch_data, in "
+    "the real-platform stream (TestFastNeuron scaffolding) at switch_controller.is_active of every configured switch; "
+    "there the mock boards answer nothing after boot and attract mode is stopped (the config's start button cannot "
+    "start a game without ball devices)",
     "OPP: cards have been initialised (old_state is an int); one chain",
 ]
 
@@ -755,6 +758,173 @@ def writer_case(ctx, r, model, ops=None, disciplined=None):
                 return
 
 
+# ----------------------------------------------------------------------------------------------- SA: snapshots + events
+class FastRig:
+    """The REAL FAST platform booted on the repo's mock serial ports exactly as mpf/tests/test_Fast_Neuron.py does
+    (TestFastNeuron: real machine, real FastNetNeuronCommunicator, real switch controller, neuron.yaml)."""
+
+    def __init__(self):
+        from mpf.tests.test_Fast_Neuron import TestFastNeuron
+
+        class T(TestFastNeuron):
+            def __init__(self):
+                super().__init__("runTest")
+
+            def runTest(self):
+                pass
+        self.t = T()
+        self.t.setUp()
+        logging.disable(logging.CRITICAL)
+        if self.t.startup_error or self.t.machine.is_shutting_down:
+            raise InfraError("FAST test machine did not boot: %r" % (self.t.startup_error,))
+        m = self.t.machine
+        self.plat = m.hardware_platforms["fast"]
+        self.comm = self.plat.serial_connections["net"]
+        self.sc = m.switch_controller
+        self.sw = {s.hw_switch.number: s for s in m.switches.values() if s.platform == self.plat}
+        self.n = max(len(self.plat.hw_switch_data), max(self.sw) + 1)
+        if len(self.sw) < 8 or not any(s.invert for s in self.sw.values()):
+            raise InfraError("FAST test config has no NC switch / too few switches")
+        # the config tags one switch `start`; without ball devices a game cannot start, so attract mode (the only listener
+        # of the start button) is stopped: switch states are what is under test here, not the game
+        if "attract" in m.modes and m.modes["attract"].active:
+            m.modes["attract"].stop()
+            self.t.advance_time_and_run(.125)
+        # devices reacting to switch changes (flippers, autofires) write commands; from here on the mock boards accept
+        # every command and answer nothing, so that only the generated bytes ever reach the communicator's buffer
+        # (a real board sends whole frames; a canned reply landing inside a half-fed frame would be a harness artefact)
+        self.swallowed = []
+        for conn in self.t.serial_connections.values():
+            def quiet(msg, _rig=self):
+                _rig.swallowed.append(bytes(msg)[:24])
+                return len(msg)
+            conn._simulate_board_response = quiet
+        self.cfg = "".join("1" if i in self.sw else "0" for i in range(self.n))
+        self.inv = "".join("1" if i in self.sw and self.sw[i].invert else "0" for i in range(self.n))
+
+    def logical(self):
+        return "".join("1" if i in self.sw and self.sc.is_active(self.sw[i]) else "0" for i in range(self.n))
+
+    def hw(self):
+        d = self.plat.hw_switch_data
+        return "".join(str(d[i]) for i in sorted(d)) or "-"
+
+    def feed(self, chunk, escapes):
+        try:
+            self.comm.parse_incoming_raw_bytes(chunk)
+        except Exception as e:
+            escapes.append(type(e).__name__ + ": " + str(e)[:80])
+        if b"\r" in chunk:
+            try:
+                self.t.advance_time_and_run(.125)
+            except Exception as e:
+                escapes.append("loop: " + type(e).__name__ + ": " + str(e)[:80])
+
+    def close(self):
+        try:
+            for c in self.t.serial_connections.values():
+                c.expected_commands = {}
+            self.t.tearDown()
+        except Exception:
+            pass
+
+
+def gen_sa_seq(r, rig):
+    """items: (frame bytes | None if dropped, meta)"""
+    nums = sorted(rig.sw)
+    items = []
+    snaps = []
+    for _ in range(r.randint(4, 14)):
+        k = r.random()
+        if k < 0.35:
+            j = r.random()
+            if snaps and j < 0.3:
+                data = r.choice(snaps)                      # identical to an earlier snapshot
+            elif j < 0.6:
+                data = bytearray(r.choice(snaps) if snaps else bytes(14))
+                for _ in range(r.randint(1, 4)):            # flips on configured switches: contradicts events in between
+                    n = r.choice(nums)
+                    data[n // 8] ^= 1 << (n % 8)
+                data = bytes(data)
+            else:
+                data = bytes(r.randrange(256) for _ in range(14))
+            snaps.append(data)
+            items.append((b"SA:0E," + data.hex().upper().encode(), ("snap", data.hex())))
+        elif k < 0.85:
+            n = r.choice(nums) if r.random() < 0.85 else r.randrange(112)
+            closed = r.random() < 0.5
+            f = (b"-L:" if closed else b"/L:") + (("%02X" if r.random() < 0.8 else "%02x") % n).encode()
+            if r.random() < 0.15:
+                items.append((None, ("dropped", n, closed)))   # lost on the wire: never delivered
+            else:
+                items.append((f, ("ev", n, closed)))
+        elif k < 0.93:
+            items.append((r.choice([b"-L:G1", b"/L:", b"-L:0AZ", b"SA:0E", b"SA:0E,0G", b"SA:0E,00,00", b"/L:1G"]),
+                          ("malformed",)))
+        else:
+            items.append((r.choice([b"WD:P", b"TL:P", b"", b"ZZ:1"]), ("noise",)))
+    return items
+
+
+def sa_expect(rig, items, logical0, hw0):
+    """the oracle's own reading of the reports: last report per switch wins"""
+    exp = {n: logical0[n] == "1" for n in rig.sw}
+    hw = hw0
+    for f, meta in items:
+        if f is None:
+            continue
+        if meta[0] == "snap":
+            bs = bytes.fromhex(meta[1])
+            bits = [(b >> i) & 1 for b in bs for i in range(8)]
+            hw = "".join(map(str, bits))
+            for n, s in rig.sw.items():
+                if n < len(bits):
+                    exp[n] = bool(bits[n] ^ (1 if s.invert else 0))
+        elif meta[0] == "ev":
+            if meta[1] in rig.sw:
+                exp[meta[1]] = meta[2]
+    return exp, hw
+
+
+def sa_case(ctx, r, model, rig, items=None):
+    items = items if items is not None else gen_sa_seq(r, rig)
+    data = b"".join(f + b"\r" for f, _ in items if f is not None)
+    if not data:
+        return
+    case = {"kind": "fast-sa", "items": [[f.decode() if f is not None else None, list(m)] for f, m in items]}
+    ctx.count("fastsa_sequences")
+    for _, m in items:
+        ctx.count("fastsa_" + m[0])
+    ctx.evaluated(case, sum(1 for _, m in items if m[0] == "snap") >= 1 and sum(1 for _, m in items if m[0] == "ev") >= 1)
+    for chunks in chunkings(r, data, 1):
+        logical0, hw0 = rig.logical(), rig.hw()
+        if rig.comm.received_msg:
+            raise InfraError("FAST rig: bytes left in the buffer between sequences")
+        if model is not None:
+            model.ask("swinit %s %s %s %s" % (rig.cfg, rig.inv, logical0, hw0))
+        escapes = []
+        ccase = dict(case, chunks=[c.hex() for c in chunks], initial=logical0)
+        for c in chunks:
+            rig.feed(c, escapes)
+            if model is not None:
+                ans = model.ask("fastsw " + c.hex()).split(" ")
+                impl = ["buf=" + (bytes(rig.comm.received_msg).hex() or "-"), "l=" + rig.logical(), "hw=" + rig.hw()]
+                if not ctx.compare(dict(ccase, what="fast-sa chunk " + c.hex()), impl, ans[-3:]):
+                    model = None      # keep the oracle running; the model is out of step for this run
+        if escapes:
+            ctx.fail("fast-sa:parser-raises", ccase, {"escapes": escapes[:3]})
+            return
+        exp, hw = sa_expect(rig, items, logical0, hw0)
+        got = {n: rig.sc.is_active(s) for n, s in rig.sw.items()}
+        wrong = {n: {"switch": rig.sw[n].name, "mpf": got[n], "last_report": exp[n]} for n in exp if got[n] != exp[n]}
+        if wrong:
+            ctx.fail("fast-sa:state-not-last-report", ccase, {"wrong": wrong})
+            return
+        if rig.hw() != hw:
+            ctx.fail("fast-sa:hw-data-not-last-snapshot", ccase, {"hw_switch_data": rig.hw(), "last_snapshot": hw})
+            return
+
+
 # ----------------------------------------------------------------------------------------------- lost response / retry
 class VLoop(asyncio.SelectorEventLoop):
     """asyncio loop on a virtual clock (advanced by the harness only)"""
@@ -862,6 +1032,17 @@ def run(ctx):
             writer_case(ctx, ctx.rng("writer", i), model)
         for i in range(ctx.n(80, 800)):
             retry_case(ctx, ctx.rng("retry", i), model)
+        rig = FastRig()
+        try:
+            z = "00" * 14
+            sa_case(ctx, ctx.rng("w-sa"), model, rig, items=[      # same snapshot twice around contradicting events
+                (b"SA:0E," + z.encode(), ("snap", z)), (b"-L:02", ("ev", 2, True)), (b"-L:05", ("ev", 5, True)),
+                (b"SA:0E," + z.encode(), ("snap", z)), (None, ("dropped", 1, True)),
+                (b"SA:0E,02" + z[2:].encode(), ("snap", "02" + z[2:])), (b"/L:01", ("ev", 1, False))])
+            for i in range(ctx.n(250, 3000)):
+                sa_case(ctx, ctx.rng("sa", i), model, rig)
+        finally:
+            rig.close()
     finally:
         if model is not None:
             model.close()
@@ -902,6 +1083,30 @@ def replay(ctx, rep):
         elif sig:
             ctx.fail(sig, case, {"note": "stream-level oracle; re-run ./check C14 with the same seed",
                                  "frames": [f.hex() for f in a[0]], "bad_crc": a[5].bad_crc["c"]})
+    elif case["kind"] == "fast-sa":
+        rig = FastRig()
+        try:
+            items = [(f.encode() if f is not None else None, tuple(m)) for f, m in case["items"]]
+            for chunks in ([bytes.fromhex(c) for c in case.get("chunks", [])], None):
+                if chunks is None:
+                    chunks = [b"".join(f + b"\r" for f, _ in items if f is not None)]
+                logical0, hw0 = rig.logical(), rig.hw()
+                esc = []
+                for c in chunks:
+                    rig.feed(c, esc)
+                exp, hw = sa_expect(rig, items, logical0, hw0)
+                wrong = {n: exp[n] for n, sw in rig.sw.items() if rig.sc.is_active(sw) != exp[n]}
+                if esc:
+                    ctx.fail("fast-sa:parser-raises", case, {"escapes": esc[:3]})
+                    return
+                if wrong:
+                    ctx.fail("fast-sa:state-not-last-report", case, {"wrong": wrong})
+                    return
+                if rig.hw() != hw:
+                    ctx.fail("fast-sa:hw-data-not-last-snapshot", case, {"hw_switch_data": rig.hw()})
+                    return
+        finally:
+            rig.close()
     elif case["kind"] == "retry":
         obs, written, err = retry_run(case["gate"], case["max_retries"], case["ops"])
         if err:
